@@ -219,8 +219,11 @@ def read_num_token(i, s):
         value = float(raw_value)
     if m.group(4):
         exponent = int(m.group(4)[1:])
-        if exponent < 0:
-            value *= frac(1, 10**-exponent)
-        else:
-            value *= 10**exponent
+        try:
+            if exponent < 0:
+                value *= frac(1, 10**-exponent)
+            else:
+                value *= 10**exponent
+        except OverflowError:
+            raise BadNumberError(i)
     return Token(Tokens.NUM, m.start(), m.end(), value=value)
